@@ -165,6 +165,21 @@ def frame_source(nroots):
     return FRAME_SRC_HEAD % body
 
 
+def frames_source(counts):
+    """counts[0] locals in the paused function, counts[j] locals in the j-th function below it (its caller's caller
+    ...). The entry point is the bottom function `frame_entry`."""
+    src = FRAME_SRC_HEAD % ''.join('    v%d = VALS[%d]\n' % (i, i) for i in range(counts[0]))
+    src += '\nFVALS = None\n'
+    prev = 'frame_fn'
+    for j in range(1, len(counts)):
+        src += '\n\ndef frame_%d():\n' % j
+        src += ''.join('    f%d_v%d = FVALS[%d][%d]\n' % (j, i, j - 1, i) for i in range(counts[j]))
+        src += '    return %s()\n' % prev
+        prev = 'frame_%d' % j
+    src += '\n\ndef frame_entry():\n    return %s()\n' % prev
+    return src
+
+
 class CollectorRun:
     """Runs the real agent once on a frame whose locals are the instance's roots (declaration order)."""
 
@@ -176,6 +191,49 @@ class CollectorRun:
         if nroots not in self.hosts:
             self.hosts[nroots] = R.write_host(self.workdir, frame_source(nroots))
         return self.hosts[nroots]
+
+    def host_frames(self, counts):
+        key = tuple(counts)
+        if key not in self.hosts:
+            self.hosts[key] = R.write_host(self.workdir, frames_source(counts))
+        return self.hosts[key]
+
+    def run_frames(self, inst, built, watches=()):
+        """The paused frame and inst['frames'] frames below it, collected with frame_type all_frame. The time budget of
+        the tracepoint ends the collection below the generated functions (the frames of the harness and of the thread
+        bootstrap are listed without variables), which is why the case runs on a virtual clock that advances with
+        every reading."""
+        import threading
+        from deep.api.tracepoint.trigger import LocationAction, LineLocation, Trigger, Location
+        counts = [len(inst['roots'])] + [len(f) for f in inst['frames']]
+        mod, path, marks = self.host_frames(counts)
+        mod.VALS = [built.objs[r] for r in inst['roots']]
+        mod.FVALS = [[built.objs[r] for r in f] for f in inst['frames']]
+        mod.W = [built.objs[w] for w in inst.get('watch', [])]
+        watches = list(watches) + ['W[%d]' % i for i in range(len(mod.W))]
+        rg = R.Rig()
+        out = {}
+        try:
+            conf = {'watches': list(watches), 'frame_type': 'all_frame', 'stack_type': 'stack', 'fire_count': '1',
+                    'fire_period': '1000', 'log_msg': None,
+                    'MAX_VARIABLES': inst['maxVars'], 'MAX_STRING_LENGTH': inst['maxStr'],
+                    'MAX_COLLECTION_SIZE': inst['maxColl'], 'MAX_VAR_DEPTH': inst['maxDepth'],
+                    'MAX_TP_PROCESS_TIME': len(counts) * 10 + 5}
+            act = LocationAction('tp-coll', None, conf, LocationAction.ActionType.Snapshot)
+            trig = Trigger(LineLocation(path.rsplit('/', 1)[-1], marks['frame'], Location.Position.START), [act])
+            rg.install_triggers([trig])
+            rg.clock.auto = 10_000_000     # every clock reading advances 10 ms
+
+            def body():
+                out['res'] = rg.run(mod.frame_entry, only_file=path)
+            th = threading.Thread(target=body)
+            th.start()
+            th.join(60)
+            return out.get('res'), rg.snapshots(), list(rg.escaped)
+        finally:
+            mod.VALS = None
+            mod.FVALS = None
+            rg.close()
 
     def run(self, inst, built, watches=(), extra_conf=None, frame_type='single_frame', public=False, log_msg=None):
         from deep.api.tracepoint.trigger import LocationAction, LineLocation, Trigger, Location
@@ -206,24 +264,33 @@ class CollectorRun:
             rg.close()
 
 
-def project(snapshot, built):
+def project(snapshot, built, nframes=1):
     """Snapshot -> [order, kids, vlen, trunc] (1-based lists by variable id). Raises ValueError when the table is
-    not interpretable (that is reported as a violation by the caller)."""
+    not interpretable (that is reported as a violation by the caller).
+
+    The locals mapping of a frame is given an id while the frame is collected and is not an entry of the delivered
+    table: the k-th id missing from the table stands for the mapping of frame k (order = -k, kids = that frame's
+    variable list)."""
     look = snapshot.var_lookup
-    frame_vars = snapshot.frames[0].variables
     ids = sorted(int(k) for k in look.keys())
-    top = max(ids + [1])
+    fvars = [[int(v.vid) for v in f.variables] for f in snapshot.frames[:nframes]]
+    for f in snapshot.frames[nframes:]:
+        if f.variables:
+            raise ValueError('frame %s below the generated functions carries variables' % f.method_name)
+    top = max(ids + [1] + [x for fv in fvars for x in fv])
     order, kids, vlen, trunc = [], [], [], []
+    nextframe = 0
     for i in range(1, top + 1):
-        if i == 1:
-            order.append(0)
-            kids.append([int(v.vid) for v in frame_vars])
-            vlen.append(0)
-            trunc.append(False)
-            continue
         v = look.get(str(i))
         if v is None:
-            raise ValueError('variable id %d missing from the table (ids must be dense)' % i)
+            if nextframe >= nframes:
+                raise ValueError('variable id %d missing from the table (ids must be dense)' % i)
+            order.append(-nextframe)
+            kids.append(fvars[nextframe] if nextframe < len(fvars) else [])
+            vlen.append(0)
+            trunc.append(False)
+            nextframe += 1
+            continue
         node = built.node_of.get(int(v.hash))
         if node is None:
             raise ValueError('variable id %d has hash %s of no built object' % (i, v.hash))
@@ -231,6 +298,13 @@ def project(snapshot, built):
         kids.append([int(c.vid) for c in v.children])
         vlen.append(len(v.value))
         trunc.append(bool(v.truncated))
+    # locals mappings recorded after the last table entry (their variables are all references to earlier entries)
+    last = max([k for k in range(len(fvars)) if fvars[k]] + [-1])
+    for k in range(nextframe, last + 1):
+        order.append(-k)
+        kids.append(fvars[k])
+        vlen.append(0)
+        trunc.append(False)
     wres = []
     for w in snapshot.watches:
         if w.error is not None or w.result is None:
@@ -247,6 +321,7 @@ def instance_header(inst, built):
     h['kind'] = ['str' if k == 'sstr' else 'obj' if k == 'proxy' else k for k in h['kind']]
     h['slen'] = [built.slen[n] for n in range(1, len(inst['kind']) + 1)]
     h['watch'] = list(inst.get('watch', []))
+    h['frames'] = [list(f) for f in inst.get('frames', [])]
     h['wlim'] = {'maxVars': 1000, 'maxStr': 1024, 'maxColl': 10, 'maxDepth': 5}    # VariableProcessorConfig defaults
     return h
 
